@@ -600,7 +600,15 @@ pub fn probe_set_iterators(rebuild: &dyn Fn() -> SetSut, s: &mut SetSut, univers
                         visited.push(k.id);
                         sel(k.id)
                     });
-                    for _ in 0..cut {
+                    for step in 0..=cut {
+                        let (lo, hi) = it.size_hint();
+                        let left = total - step;
+                        if lo > left || hi.map_or(false, |h| h < left) {
+                            return Err(format!("set.extract_if: size_hint() = {:?} but exactly {left} more elements are yielded", (lo, hi)));
+                        }
+                        if step == cut {
+                            break;
+                        }
                         match it.next() {
                             Some(k) => yielded.push(k.id),
                             None => return Err("set.extract_if ended early".into()),
